@@ -90,6 +90,45 @@ func condAtoms(v ssa.Value, truth bool, subst map[*ssa.Parameter]string, ifi *ss
 		}
 	case *ssa.Const:
 		return nil
+	case *ssa.Phi:
+		// a boolean stored in a variable: `ok := a && b` is lowered to φ(false from the block where a failed, b
+		// from the block reached when a held).  If the φ is true, the only non-false edge was taken: its value is
+		// true and so is everything that dominates its source block.  Dually for `a || b` when the φ is false.
+		if isBool(x.Type()) && subst == nil {
+			want := "false"
+			if !truth {
+				want = "true"
+			}
+			live := -1
+			for i, e := range x.Edges {
+				if cst, ok := e.(*ssa.Const); ok && cst.Value != nil && cst.Value.String() == want {
+					continue
+				}
+				if live >= 0 {
+					live = -2
+					break
+				}
+				live = i
+			}
+			if live >= 0 && live < len(x.Block().Preds) {
+				at := []Atom{{L: exprDepth(v, subst, 0), Op: "==", R: map[bool]string{true: "true", false: "false"}[truth], If: ifi}}
+				at = append(at, condAtoms(x.Edges[live], truth, subst, ifi, depth+1)...)
+				pb := x.Block().Preds[live]
+				for _, a := range factsAtBlockSubst(pb, nil, depth+1) {
+					a.If = ifi
+					at = append(at, a)
+				}
+				// the edge itself, when the predecessor branches on a condition
+				if pi, ok := pb.Instrs[len(pb.Instrs)-1].(*ssa.If); ok && len(pb.Succs) == 2 && pb.Succs[0] != pb.Succs[1] {
+					for si := 0; si < 2; si++ {
+						if pb.Succs[si] == x.Block() {
+							at = append(at, condAtoms(pi.Cond, si == 0, subst, ifi, depth+1)...)
+						}
+					}
+				}
+				return at
+			}
+		}
 	}
 	r := "true"
 	if !truth {
